@@ -46,7 +46,7 @@ func valueOpts() gen.ValueOpts {
 		Leaves: []ref.Kind{ref.KInt8, ref.KUint8, ref.KInt16, ref.KUint16, ref.KInt32, ref.KUint32, ref.KInt64, ref.KUint64,
 			ref.KFloat32, ref.KFloat64, ref.KBool, ref.KString, ref.KString, ref.KValue, ref.KValue, ref.KValue, ref.KVoid, ref.KObject},
 		MapKeys: gen.AllScalars, Structs: true, Tuples: true, Maps: true, Lists: true, Template: true, ZeroMem: true, CompositeKeys: true, Wide: true}
-	return gen.ValueOpts{MaxLen: 4, DynDepth: 3, DynTypes: to, LongRaw: true, LongList: true}
+	return gen.ValueOpts{MaxLen: 4, DynDepth: 3, DynTypes: to, LongRaw: true, LongList: true, AnyBits: true}
 }
 
 func genCase(t *rapid.T) Case {
